@@ -21,6 +21,17 @@ EPOCH = _dt.datetime(1970, 1, 1)
 
 ID_POOL = [0, 1, 2, 3, 'a', 'b', 1.0, True, None, {'k': 1}, {'k': 2}, {'k': 1, 'j': 'a'},
            {'j': 'a', 'k': 1}]
+# embedded-document _ids that hold containers themselves: the store key of such a document must
+# not share them with the stored document (the repaired finding C06 nested-id-failed-update: a
+# refused update INTO the _id changed the key in place and left the collection unreadable)
+NESTED_IDS = [{'a': [1, 2]}, {'k': {'d': 1}}]
+# updates aimed into those containers (each is refused - the _id is immutable - or changes nothing)
+NESTED_ID_UPDATES = [
+    {'$push': {'_id.a': 3}}, {'$set': {'_id.k.z': 5}}, {'$inc': {'_id.k.d': 1}},
+    {'$unset': {'_id.k.d': ''}}, {'$set': {'_id.a.0': 9}}, {'$addToSet': {'_id.a': 7}},
+    {'$pop': {'_id.a': 1}}, {'$set': {'_id.k.d': 1}}, {'$pull': {'_id.a': 2}},
+    {'$set': {'a': 1}, '$push': {'_id.a': 3}}, {'$set': {'_id.k.d.x': 1}},
+]
 # datetime _ids that are distinct as given and equal once normalised (UTC, milliseconds)
 _D0 = _dt.datetime(2021, 6, 15, 12, 30, 0, 1000)
 DATE_IDS = [_D0, _D0.replace(microsecond=1500),
@@ -72,6 +83,8 @@ class HistGen(object):
         self.ttl = ttl
         self.indexes = indexes
         self.ids = [x for x in ID_POOL if embedded_ids or not isinstance(x, dict)]
+        if embedded_ids:
+            self.ids = self.ids + NESTED_IDS
         if date_ids == 'wide':
             self.ids = self.ids + rng.sample(DATE_IDS_WIDE, 6)
         elif date_ids:
@@ -85,6 +98,7 @@ class HistGen(object):
         if weights:
             self.w.update(weights)
         self.dollar_values = 0.0
+        self.slice_proj = 0.0     # share of find_one_and_* projections that are a $slice
         self.shadow = []          # rough picture of the documents, to aim filters and updates
         self.index_names = []
         self.now = T0
@@ -144,6 +158,13 @@ class HistGen(object):
             self.shadow.extend(copy.deepcopy(ds))
             return ['insert_many', ds, r.random() < 0.5]
         if k in ('update_one', 'update_many'):
+            nested = [d for d in self.shadow if isinstance(d.get('_id'), dict) and
+                      any(isinstance(v, (dict, list)) for v in d['_id'].values())]
+            if nested and r.random() < 0.35:
+                # an update INTO the containers of an embedded _id
+                d = r.choice(nested)
+                f = {'_id': copy.deepcopy(d['_id'])} if r.random() < 0.7 else {}
+                return [k, f, copy.deepcopy(r.choice(NESTED_ID_UPDATES)), r.random() < 0.2]
             f = self.filt()
             u = self.ug.update(self.some_doc())
             if self.ttl and r.random() < 0.3:
@@ -221,6 +242,9 @@ class HistGen(object):
             return {self.r.choice(gen.FIELDS): 1}
         if x < 0.9:
             return {self.r.choice(gen.FIELDS): 0}
+        if x < 0.9 + self.slice_proj:
+            # refused or not depending on the document: $slice of a field that is no array
+            return {self.r.choice(gen.FIELDS): {'$slice': self.r.choice([1, -1, 2])}}
         return {'_id': 0, 'zz': 1}
 
     def sort(self):
@@ -472,8 +496,12 @@ class PyRunner(object):
         return {'docs': docs, 'indexes': list(self.coll.index_information().keys())}
 
     def raw_docs(self):
-        """the stored documents themselves (no copy, no expiry pass)"""
-        return list(self.coll._store._documents.values())
+        """the stored documents themselves (no copy, no expiry pass); [] when the store itself can
+        no longer be walked (a key changed under it: the observation of the step says so)"""
+        try:
+            return list(self.coll._store._documents.values())
+        except Exception:  # pylint: disable=broad-except
+            return []
 
 
 def canon_out(out, oids):
